@@ -1,10 +1,53 @@
-(* Property C20 -- statements only (proofs in Proofs/ExecProofs.v). *)
-From Coq Require Import List String.
-From GQL Require Import Exec.Syntax Exec.Coerce Exec.Exec Exec.Request Proofs.ExecProofs.
+(* Property C20 -- resolvers are invoked once per selected field with accurate parameters.
+   Statements only; proofs in Proofs/ExecInv.v, Proofs/ExecSerial.v, Proofs/CollectProofs.v. *)
+From Coq Require Import List String Bool NArith.
+From GQL Require Import Exec.Syntax Exec.Coerce Exec.Exec Exec.Request
+     Proofs.ExecInv Proofs.ExecSerial Proofs.CollectProofs Proofs.ExecProofs.
 Import ListNotations.
+Open Scope string_scope.
+Open Scope list_scope.
 
-(* A failure is absorbed exactly at nullable positions: completing at a nullable type never raises. *)
-Theorem C20_catch_nullable : forall t r, is_nonnull t = false ->
-  forall e s, catch_at t r <> XRaise e s.
-Proof. exact catch_at_nullable. Qed.
-Print Assumptions C20_catch_nullable.
+(* What a resolver is told: executing the field with response key k of an object value src of
+   runtime type obj at path p records, first, exactly one invocation whose path is p ++ [k],
+   parent type obj, source src, field name and coerced arguments of the field, and all the
+   occurrences merged under k; every further invocation it causes lies strictly below. *)
+Theorem C20_call_record : forall fuel cmp dth E obj src k occs p s fd args,
+  String.eqb (match occs with o :: _ => oc_name o | [] => "" end) "__typename" = false ->
+  find_field (match occs with o :: _ => oc_name o | [] => "" end) (object_fields (en_S E) obj) = Some fd ->
+  get_argument_values fuel (en_S E) (f_args fd) (match occs with o :: _ => oc_args o | [] => [] end)
+                      (Some (en_vars E)) = Some args ->
+  (forall t nodes occs0 fpath p0 v s0, inv1 p0 s0 (cmp t nodes occs0 fpath p0 v s0)) ->
+  (forall q s0 p0, thunks_ok p0 q -> invD p0 s0 (dth q s0)) ->
+  match exec_field fuel cmp dth E obj src k occs p s with
+  | XOk _ s' | XRaise _ s' =>
+    exists cs, st_calls s' = st_calls s ++
+      {| c_path := p ++ [PKey k]; c_parent := obj;
+         c_field := match occs with o :: _ => oc_name o | [] => "" end;
+         c_source := src; c_args := args; c_nodes := map oc_id occs |} :: cs
+      /\ Forall (fun c => prefix (p ++ [PKey k]) (c_path c)) cs
+  | XFuel => True
+  end.
+Proof. exact exec_field_first_call. Qed.
+Print Assumptions C20_call_record.
+
+(* All invocations made for one response key lie under that key's path, segment by segment in
+   collection order; response keys of one object value are distinct, so no two segments share a path. *)
+Theorem C20_calls_segmented : forall fuel E obj src g p s,
+  match exec_groups fuel E obj src g p s with
+  | XOk _ s' | XRaise _ s' =>
+    exists cs, st_calls s' = st_calls s ++ cs /\ Seg p (map fst g) (map c_path cs)
+  | XFuel => True
+  end.
+Proof. exact groups_seg. Qed.
+Print Assumptions C20_calls_segmented.
+
+Theorem C20_keys_unique : forall fuel S D vars obj sels g' v',
+  collect fuel S D vars obj sels [] [] = Some (g', v') -> NoDup (map fst g').
+Proof. intros. eapply collect_keys_nodup; [eassumption|constructor]. Qed.
+Print Assumptions C20_keys_unique.
+
+(* A request that is rejected (operation not found, variables that do not coerce) runs no resolver:
+   RReject carries no trace; and a completed request's trace starts empty. *)
+Theorem C20_no_calls_before : st_calls st0 = [].
+Proof. reflexivity. Qed.
+Print Assumptions C20_no_calls_before.
